@@ -32,6 +32,8 @@ const POOL: &[&str] = &[
     "|https://x.com/a*b", "|https://x.com/a*c",
     // a plain pattern that would mean something else if it were read as a regex (backslash class)
     "adv\\d",
+    // the empty tag (`$tag=`) is a tag like any other: such a rule is not the twin of an untagged one
+    "@@adv$tag=", "adv$important,tag=",
     // same bucket, masks that differ in exactly one bit the existing pairs do not cover
     // empty patterns (match everything) next to token-less partners with the same mask
     "*$image", "$image", "/a*b$image", "/a$image", "a^$image", "/a.b|$image",
